@@ -358,6 +358,11 @@ ClusterItems(def, lvl) ==
                  ELSE fs[1][2] \o fs[2][2] \o fs[3][2] IN
   {[t |-> "cluster", s |-> "", v |-> "", ss |-> Names(fs), last |-> "", hasv |-> FALSE,
     txt |-> "-" \o Txt(fs)] : fs \in FS2 \cup FS3}
+  \* a value attached with `=` to a bundle that ends in a flag (`-vd=x`): never a sentence
+  \cup (IF "flageq" \in DOMAIN def.alpha /\ def.alpha.flageq
+        THEN {[t |-> "cluster", s |-> "", v |-> def.alpha.eqvals[1], ss |-> Names(fs), last |-> b[1], hasv |-> TRUE,
+               txt |-> "-" \o Txt(fs) \o b[2] \o "=" \o def.alpha.eqvals[1]] : fs \in FS1, b \in F}
+        ELSE {})
   \* the tokeniser knows the short names of the ROOT's help and version flags as flags too - the version name
   \* whether or not a version is configured: `-aV` is `-a -V`, never a word
   \cup {[t |-> "cluster", s |-> "", v |-> "", ss |-> IF front THEN <<x[1]>> \o Names(fs) ELSE Names(fs) \o <<x[1]>>,
